@@ -807,6 +807,31 @@ theorem pairwise_query_covered (rs D q a b : Nat) :
 example : PairwiseCovered .fft64 64 5 5 3 3 4 ∧ ¬ PairwiseCovered .fft64 8 5 5 3 3 4 := by
   unfold PairwiseCovered; decide
 
+/-- the pairwise query called as its signature documents, `(cnv_offset, res_size, a_size, b_size)`: what the delegate answers
+(for a result of `cnv_offset` limbs) covers the single take of `cnv_pairwise_apply_dft` on a destination of `res_size` limbs
+when `res_size ≤ cnv_offset` -/
+theorem cnv_pairwise_direct_query_ok (off size a b : Nat) (h : size ≤ off) (w : Arena)
+    (hw : cnvPairwiseQuery be off size a b ≤ w.available) :
+    (run (leaf (cnvPairwiseTmp be size a b)) w).isOk = true := by
+  have hle : cnvPairwiseTmp be size a b ≤ cnvPairwiseQuery be off size a b := by
+    unfold cnvPairwiseQuery
+    cases be
+    · simp only [cnvPairwiseTmp, cnvApplyTmp]; omega
+    · simp only [cnvPairwiseTmp, cnvApplyTmp]
+      split <;> split <;> omega
+  exact hal_leaf_ok _ w (Nat.le_trans hle hw)
+
+example : (run (leaf (cnvPairwiseTmp .fft64 3 4 2)) ⟨4096 + 8, cnvPairwiseQuery .fft64 5 3 4 2 + 56⟩).isOk = true := by decide
+
+/- FULL STATEMENT (false: the delegate's swapped arguments, `known_findings.json`): for `cnv_offset < res_size` the answer is that of
+   a narrower result — 448 < 576 bytes on FFT64 for (1, 3, 4, 2); 0 bytes on NTT120 for `cnv_offset = 0`. -/
+theorem cnv_pairwise_direct_query_counterexample :
+    (run (leaf (cnvPairwiseTmp .fft64 3 4 2)) ⟨4096, cnvPairwiseQuery .fft64 1 3 4 2⟩).isOk = false ∧
+    (run (leaf (cnvPairwiseTmp .ntt120 3 4 2)) ⟨4096, cnvPairwiseQuery .ntt120 0 3 4 2⟩).isOk = false := by
+  decide
+
+example : cnvPairwiseQuery .fft64 1 3 4 2 = 448 ∧ cnvPairwiseTmp .fft64 3 4 2 = 576 := by decide
+
 /-- `glwe_tensor_apply` / `glwe_tensor_apply_add_assign`, where the pairwise query is covered (`pairwise_query_covered`) -/
 theorem glwe_tensor_apply_ok (off : Nat) (res a : G) (bSize ea eb : Nat) (hn : n % 8 = 0) (hea : ea ≤ a.size) (heb : eb ≤ bSize)
     (hb : 0 < a.b2k) (hoff : cnvHi off a.b2k ≤ ea + eb)
@@ -1160,6 +1185,72 @@ theorem blind_rotation_block_scratch_independent {Val : Type} (block : Nat) (acc
 
 example : (run (progBlindRotationBlock 2 (5 : Int) 0 (fun i a => a + i) (fun _ a t => a * t) (fun i r => r - i) (fun s x r => s + x - r)
     (· * 2) (· + 1) (fun b => (b, 7)) (· + ·)) (fun _ => 1234)).1 = 6 := by decide
+
+/-! ### the poulpy-ckks product path: `take_mul_tmp`, the tensor, the rescaled copies
+
+The evaluator's products take buffers from the scratch, fill them with one operation that runs on the rest, and consume them
+with another that runs on the same rest (`Model/ScratchProg.lean`, `progViaTmp`, `fillBufs`); the sub-operations are the
+programs above placed on the rest (`Prog.shift`). -/
+
+/-- kernels used by the non-vacuity examples below (integers instead of limbs) -/
+def exProduct (x y : Int) : ProductKernels Int :=
+  ⟨2, x, y, (· + 1), (· * 2), (· + ·), fun j a b t => a * b + t + j, fun r => (r, 1), (· + ·), List.sum⟩
+def exRelin : RelinKernels Int := ⟨2, 0, (· + 3), (· * 2), (· + ·), (· + 1), fun j r => (r + j, j), (· * ·)⟩
+def exShift : ShiftKernels Int := ⟨1, 2, 0, fun x j => x + j, fun x j c => x + c + j, fun x j c => (x + c, c + j)⟩
+
+/-- `ckks_mul_into / _assign`, `ckks_square_into / _assign`: the tensor taken from the scratch is written by the tensor product
+before the relinearisation reads it, and neither of them reads a cell of the rest that it has not written -/
+theorem ckks_mul_scratch_independent {Val : Type} (P : ProductKernels Val) (R : RelinKernels Val) (m m' : Nat → Val) :
+    (run (progCkksMul P R) m).1 = (run (progCkksMul P R) m').1 :=
+  write_before_read_independent _ (wbr_ckksMul P R) m m'
+
+example : (run (progCkksMul (exProduct 2 3) exRelin) (fun _ => 99)).1 = [0, 182] := by decide
+
+/-- the composites `ckks_mul_add_ct_into` / `ckks_mul_sub_ct_into` and `ckks_mul_add_pt_*` / `ckks_mul_sub_pt_*` / a term of
+`ckks_dot_product_pt_*`: `take_mul_tmp(dst)` is written by the product before `ckks_add_assign` / `ckks_sub_assign` reads it -/
+theorem ckks_composite_scratch_independent {Val : Type} (P : ProductKernels Val) (R : RelinKernels Val) (packCt : List Val → Val)
+    (S : ShiftKernels Val) (m m' : Nat → Val) :
+    (run (progCkksMulAddCt P R packCt S) m).1 = (run (progCkksMulAddCt P R packCt S) m').1 ∧
+    (run (progCkksMulAddPt P S) m).1 = (run (progCkksMulAddPt P S) m').1 :=
+  ⟨write_before_read_independent _ (wbr_ckksMulAddCt P R packCt S) m m', write_before_read_independent _ (wbr_ckksMulAddPt P S) m m'⟩
+
+example : (run (progCkksMulAddCt (exProduct 2 3) exRelin List.sum exShift) (fun _ => 99)).1 = [365, 364] ∧
+    (run (progCkksMulAddPt (exProduct 2 3) exShift) (fun _ => 7)).1 = [115, 114] := by decide
+
+/-- `ckks_dot_product_ct`, fast path: every rescaled copy is written by its `ckks_rescale_into` before a tensor product reads
+it, the tensor accumulator by the first `glwe_tensor_apply` before `glwe_tensor_apply_add_assign` reads it -/
+theorem ckks_dot_product_ct_scratch_independent {Val : Type} (cnt : Nat) (hcnt : 0 < cnt) (S : ShiftKernels Val) (input : Nat → Val)
+    (packCt : List Val → Val) (first : Val → Val → ProductKernels Val) (accum : Nat → Val → Val → Val → ProductKernels Val)
+    (R : RelinKernels Val) (m m' : Nat → Val) :
+    (run (progCkksDotProduct cnt S input packCt first accum R) m).1 = (run (progCkksDotProduct cnt S input packCt first accum R) m').1 :=
+  write_before_read_independent _ (wbr_ckksDotProduct cnt hcnt S input packCt first accum R) m m'
+
+example : (run (progCkksDotProduct 2 exShift (fun i => i) List.sum exProduct (fun _ a b t => exProduct (a + t) b) exRelin) (fun _ => 5)).1 =
+    (run (progCkksDotProduct 2 exShift (fun i => i) List.sum exProduct (fun _ a b t => exProduct (a + t) b) exRelin) (fun c => c + 1)).1 ∧
+    (run (progCkksDotProduct 2 exShift (fun i => i) List.sum exProduct (fun _ a b t => exProduct (a + t) b) exRelin) (fun _ => 5)).1.length = 2 := by
+  decide
+
+/-- `ckks_mul_many` (one level of `mul_many_rec`): the two halves' buffers are written by their products before the final
+product reads them -/
+theorem ckks_mul_many_scratch_independent {Val : Type} (PL PR : ProductKernels Val) (RL RR : RelinKernels Val) (packCt : List Val → Val)
+    (P : Val → Val → ProductKernels Val) (R : RelinKernels Val) (m m' : Nat → Val) :
+    (run (progCkksMulMany4 PL PR RL RR packCt P R) m).1 = (run (progCkksMulMany4 PL PR RL RR packCt P R) m').1 :=
+  write_before_read_independent _ (wbr_ckksMulMany4 PL PR RL RR packCt P R) m m'
+
+example : (run (progCkksMulMany4 (exProduct 1 2) (exProduct 3 4) exRelin exRelin List.sum exProduct exRelin) (fun _ => 11)).1 =
+    (run (progCkksMulMany4 (exProduct 1 2) (exProduct 3 4) exRelin exRelin List.sum exProduct exRelin) (fun c => c)).1 ∧
+    (run (progCkksMulMany4 (exProduct 1 2) (exProduct 3 4) exRelin exRelin List.sum exProduct exRelin) (fun _ => 11)).1.length = 2 := by
+  decide
+
+/-- what makes the pattern sound is the producer: a consumer placed on a buffer nobody wrote reads the scratch's previous
+contents (the program that only reads `take_mul_tmp` is not write-before-read, and its result is the old content) -/
+theorem ckks_tmp_unwritten_scratch_dependent :
+    ¬ WBR [] (Prog.read 0 (fun t => (exShift.prog t).shift 1) : Prog Int (List Int)) ∧
+    (run (Prog.read 0 (fun t => (exShift.prog t).shift 1)) (fun _ => (1 : Int))).1 ≠
+      (run (Prog.read 0 (fun t => (exShift.prog t).shift 1)) (fun _ => (2 : Int))).1 := by
+  refine ⟨fun h => by simpa [WBR] using h.1, by decide⟩
+
+example : (run (Prog.read 0 (fun t => (exShift.prog t).shift 1)) (fun _ => (1 : Int))).1 = [3, 2] := by decide
 
 /-! ### the shift / normalise family: which zero fill is needed on which path
 
